@@ -25,7 +25,7 @@ RULE = (
     'stepping, paused, waiting, with another request pending, or inside a transition; distinct = distinct event-log '
     'digest of such runs.'
 )
-BUDGET = {'quick': (30000, 50), 'thorough': (4_000_000, 600)}
+BUDGET = {'quick': (80000, 55), 'thorough': (4_000_000, 600)}
 COMPONENTS = common.COMPONENTS
 ASSUMPTIONS = [
     'the ready queue is FIFO (asyncio guarantee) - schedules that permute it are not generated',
